@@ -313,18 +313,18 @@ fn derive_plan(base: &Plan, m: &Model) -> Option<Plan> {
     let per = 1_000_000 / m.fps.max(1) as u64;
     let tick = |start: u64| TickSpec { start_us: start, period_us: per.max(1000), ..Default::default() };
     let locals0: Vec<usize> = m.handles.iter().filter(|(h, k)| **k == Kind::Local && **h < m.num_players).map(|(h, _)| *h).collect();
-    nodes.push(NodeSpec { kind: NodeKind::Peer { locals: locals0 }, tick: tick(0), wall_offset_ms: 1_000_000, drain: true });
+    nodes.push(NodeSpec { kind: NodeKind::Peer { locals: locals0 }, tick: tick(0), wall_offset_ms: 1_000_000, drain: true, timeout_ms: None, notify_ms: None });
     remote_addrs.sort();
     for (i, a) in remote_addrs.iter().enumerate() {
         let locals: Vec<usize> = m.handles.iter().filter(|(_, k)| **k == Kind::Remote(*a)).map(|(h, _)| *h).collect();
-        nodes.push(NodeSpec { kind: NodeKind::Peer { locals }, tick: tick(1000 * (i as u64 + 1)), wall_offset_ms: 2_000_000, drain: true });
+        nodes.push(NodeSpec { kind: NodeKind::Peer { locals }, tick: tick(1000 * (i as u64 + 1)), wall_offset_ms: 2_000_000, drain: true, timeout_ms: None, notify_ms: None });
     }
     // spectator handles at the host must be num_players + k in the world's own builder: only
     // configurations with at most one handle per spectator address are rebuilt faithfully
     let n_peers = nodes.len();
     spec_addrs.sort();
     for (i, _a) in spec_addrs.iter().enumerate() {
-        nodes.push(NodeSpec { kind: NodeKind::Spectator { host: 0, max_frames_behind: m.max_behind, catchup_speed: m.catchup }, tick: tick(500 * (i as u64 + 1)), wall_offset_ms: 3_000_000, drain: true });
+        nodes.push(NodeSpec { kind: NodeKind::Spectator { host: 0, max_frames_behind: m.max_behind, catchup_speed: m.catchup }, tick: tick(500 * (i as u64 + 1)), wall_offset_ms: 3_000_000, drain: true, timeout_ms: None, notify_ms: None });
     }
     let mut links = Vec::new();
     for a in 0..nodes.len() {
